@@ -223,6 +223,11 @@ class ExprNorm(ast.NodeTransformer):
         if len(node.ops) == 1:
             op = type(node.ops[0])
             left, right = node.left, node.comparators[0]
+            if op in (ast.Is, ast.IsNot) and isinstance(left, ast.Constant) and \
+                    isinstance(right, ast.Constant) and (left.value is None or right.value is None):
+                # <literal> is [not] None, left behind by substituting a literal argument
+                same = left.value is None and right.value is None
+                return _loc(ast.Constant(value=same if op is ast.Is else not same), node)
             if op in FLIP and is_constlike(left) and not is_constlike(right):
                 return _loc(ast.Compare(left=right, ops=[FLIP[op]()], comparators=[left]), node)
         return node
@@ -253,6 +258,21 @@ class ExprNorm(ast.NodeTransformer):
                                         comparators=[ast.Constant(value=0)]), node)
             return node
         self.generic_visit(node)
+        return node
+
+    def visit_BoolOp(self, node):
+        self.generic_visit(node)
+        # a leading literal True/False decides or drops out (nothing is evaluated before it)
+        vals = list(node.values)
+        while len(vals) > 1 and isinstance(vals[0], ast.Constant) and \
+                isinstance(vals[0].value, bool):
+            if vals[0].value == isinstance(node.op, ast.And):
+                vals = vals[1:]                 # True and X -> X ; False or X -> X
+            else:
+                return _loc(ast.Constant(value=vals[0].value), node)   # False and X ; True or X
+        if len(vals) == 1:
+            return vals[0]
+        node.values = vals
         return node
 
     def visit_IfExp(self, node):
@@ -339,6 +359,20 @@ class ExprNorm(ast.NodeTransformer):
                              body=ast.Subscript(value=ast.Name(id='_o', ctx=ast.Load()),
                                                 slice=args[0], ctx=ast.Load()))
             return _loc(lam, node)
+        if isinstance(node.func, ast.Attribute) and isinstance(node.func.value, ast.Call) and \
+                dotted(node.func.value.func) == 're.compile' and node.func.value.args and \
+                not node.func.value.keywords and not node.keywords and \
+                node.func.attr in ('match', 'fullmatch', 'search', 'sub', 'subn', 'split',
+                                   'findall', 'finditer') and \
+                1 <= len(args) <= (2 if node.func.attr in ('sub', 'subn') else 1):
+            # re.compile(P[, F]).m(x) is re.m(P, x[, flags=F])
+            comp = node.func.value
+            call = ast.Call(func=ast.Attribute(value=ast.Name(id='re', ctx=ast.Load()),
+                                               attr=node.func.attr, ctx=ast.Load()),
+                            args=[comp.args[0]] + list(args), keywords=[])
+            if len(comp.args) > 1:
+                call.keywords.append(ast.keyword(arg='flags', value=comp.args[1]))
+            return _loc(call, node)
         if d == 'getattr' and len(args) == 2 and not node.keywords and \
                 isinstance(args[1], ast.Constant) and isinstance(args[1].value, str) and \
                 args[1].value.isidentifier() and not args[1].value.startswith('__'):
@@ -634,12 +668,25 @@ class StmtNorm(object):
             i += 1
         return out
 
+    def fold_literal_tests(self, stmts):
+        out = []
+        for s in stmts:
+            if isinstance(s, ast.If) and isinstance(s.test, ast.Constant) and \
+                    isinstance(s.test.value, bool):
+                self.bump('literal-test-folded')
+                out.extend(self.fold_literal_tests(s.body if s.test.value else s.orelse))
+            else:
+                out.append(s)
+        return out
+
     def block(self, stmts, loop_tail, func_tail):
+        stmts = self.fold_literal_tests(stmts)
         stmts = self.split_tuple_assign(stmts)
         stmts = self.fold_known_tests(stmts)
         stmts = self.unroll_constant_loops(stmts)
         stmts = self.expand_ifexp(stmts)
         stmts = self.thread_flags(stmts)
+        stmts = self.thread_none_sentinel(stmts)
         stmts = self.loops_to_comprehensions(stmts)
         stmts = self.nest_guards(stmts)
         out = []
@@ -693,6 +740,131 @@ class StmtNorm(object):
             out.append(s)
             i += 1
         return out
+
+    # x = None                                   try: B
+    # try: B                                     except H: S; G
+    # except H: S              ==>               else: x = V; F
+    # else: x = V         (V is never None)
+    # if x is not None: F
+    # else: G
+    def thread_none_sentinel(self, stmts):
+        out = []
+        i = 0
+        while i < len(stmts):
+            s = stmts[i]
+            t = stmts[i + 1] if i + 1 < len(stmts) else None
+            f = stmts[i + 2] if i + 2 < len(stmts) else None
+            if isinstance(s, ast.Assign) and len(s.targets) == 1 and \
+                    isinstance(s.targets[0], ast.Name) and isinstance(s.value, ast.Constant) and \
+                    s.value.value is None and isinstance(t, ast.Try) and not t.finalbody and \
+                    t.orelse and isinstance(f, ast.If):
+                x = s.targets[0].id
+                pol = _test_value(f.test, x, None)
+                last = t.orelse[-1]
+                sets_in_else = isinstance(last, ast.Assign) and len(last.targets) == 1 and \
+                    isinstance(last.targets[0], ast.Name) and last.targets[0].id == x and \
+                    _never_none_expr(last.value)
+                others = [n for part in (t.body, t.orelse[:-1], [h for h in t.handlers])
+                          for st in part for n in ast.walk(st)
+                          if isinstance(n, ast.Name) and n.id == x]
+                later = [n for st in stmts[i + 3:] for n in ast.walk(st)
+                         if isinstance(n, ast.Name) and n.id == x]
+                if pol is not None and sets_in_else and not others and not later and \
+                        not any(terminates(h.body) for h in t.handlers):
+                    self.bump('none-sentinel-threaded')
+                    when_set, when_none = (f.orelse, f.body) if pol else (f.body, f.orelse)
+                    t.orelse = list(t.orelse) + list(when_set)
+                    for h in t.handlers:
+                        h.body = list(h.body) + copy.deepcopy(list(when_none))
+                    out.append(t)
+                    i += 3
+                    continue
+            out.append(s)
+            i += 1
+        return out
+
+    def coalesce_temps(self, fnode):
+        """t = (a, b); p, q = t   ->   p, q = a, b        (t not used otherwise)
+           x = ...; y = x            ->   y = ...            (x not used otherwise)"""
+        loads, stores = {}, {}
+        for n in ast.walk(fnode):
+            if isinstance(n, ast.Name):
+                d = loads if isinstance(n.ctx, ast.Load) else stores
+                d[n.id] = d.get(n.id, 0) + 1
+            elif isinstance(n, (ast.Global, ast.Nonlocal)):
+                for x in n.names:
+                    stores[x] = stores.get(x, 0) + 5
+            elif isinstance(n, (ast.FunctionDef, ast.AsyncFunctionDef, ast.Lambda)) and n is not fnode:
+                for m in ast.walk(n):
+                    if isinstance(m, ast.Name):
+                        stores[m.id] = stores.get(m.id, 0) + 5      # closures: hands off
+        changed = [False]
+
+        def once(name):
+            return loads.get(name, 0) == 1 and stores.get(name, 0) == 1
+
+        def is_copy(st):
+            return isinstance(st, ast.Assign) and len(st.targets) == 1 and \
+                isinstance(st.targets[0], ast.Name) and isinstance(st.value, ast.Name)
+
+        def def_targets(st):
+            if isinstance(st, ast.Assign) and len(st.targets) == 1:
+                t = st.targets[0]
+                if isinstance(t, ast.Name):
+                    return [t]
+                if isinstance(t, ast.Tuple) and all(isinstance(e, ast.Name) for e in t.elts):
+                    return list(t.elts)
+            return []
+
+        def block(stmts, before):
+            out = []
+            for st in stmts:
+                prev = out[-1] if out else None
+                # (1) tuple temporary
+                if isinstance(st, ast.Assign) and len(st.targets) == 1 and \
+                        isinstance(st.targets[0], ast.Tuple) and isinstance(st.value, ast.Name) and \
+                        isinstance(prev, ast.Assign) and len(prev.targets) == 1 and \
+                        isinstance(prev.targets[0], ast.Name) and \
+                        prev.targets[0].id == st.value.id and isinstance(prev.value, ast.Tuple) and \
+                        len(prev.value.elts) == len(st.targets[0].elts) and once(st.value.id):
+                    st.value = prev.value
+                    out.pop()
+                    out.append(st)
+                    changed[0] = True
+                    self.bump('tuple-temp-forwarded')
+                    continue
+                # (2) copy of a value defined just before (only other copies in between)
+                if is_copy(st) and once(st.value.id):
+                    x, y = st.value.id, st.targets[0].id
+                    j = len(out) - 1
+                    while j >= 0 and is_copy(out[j]) and x not in (out[j].value.id, out[j].targets[0].id) \
+                            and y not in (out[j].value.id, out[j].targets[0].id):
+                        j -= 1
+                    d = out[j] if j >= 0 else (before if j < 0 else None)
+                    tg = [t for t in def_targets(d) if t.id == x] if d is not None else []
+                    mentions_y = d is not None and any(
+                        isinstance(n, ast.Name) and n.id == y for n in ast.walk(d))
+                    if tg and not mentions_y:
+                        tg[0].id = y
+                        changed[0] = True
+                        self.bump('copy-coalesced')
+                        continue
+                out.append(st)
+            for st in out:
+                if isinstance(st, (ast.FunctionDef, ast.AsyncFunctionDef, ast.ClassDef)):
+                    continue
+                for field in ('body', 'orelse', 'finalbody'):
+                    v = getattr(st, field, None)
+                    if isinstance(v, list) and v and isinstance(v[0], ast.stmt):
+                        b4 = None
+                        if field == 'orelse' and isinstance(st, ast.Try) and st.body:
+                            b4 = st.body[-1]
+                        setattr(st, field, block(v, b4) or ([ast.Pass()] if field == 'body' else []))
+                for h in getattr(st, 'handlers', []) or []:
+                    h.body = block(h.body, None) or [ast.Pass()]
+            return out
+        fnode.body = block(fnode.body, None) or [ast.Pass()]
+        return changed[0]
 
     def _thread(self, branch, follow, flag):
         last = branch[-1]
@@ -900,6 +1072,10 @@ class StmtNorm(object):
     def stmt(self, s, loop_tail, func_tail):
         if isinstance(s, (ast.FunctionDef, ast.AsyncFunctionDef)):
             s.body = self.block(s.body, False, True)
+            for _ in range(3):
+                if not self.coalesce_temps(s):
+                    break
+                s.body = self.block(s.body, False, True)
             self.drop_dead_stores(s)
             return s
         if isinstance(s, ast.ClassDef):
@@ -994,6 +1170,18 @@ def _test_value(test, name, const):
     return None
 
 
+def _never_none_expr(v):
+    if isinstance(v, ast.Constant):
+        return v.value is not None
+    if isinstance(v, (ast.Dict, ast.List, ast.Set, ast.Tuple, ast.ListComp, ast.DictComp,
+                      ast.SetComp, ast.JoinedStr)):
+        return True
+    if isinstance(v, ast.Call) and isinstance(v.func, ast.Name) and \
+            v.func.id in ('dict', 'list', 'set', 'tuple', 'str', 'int', 'float', 'bool'):
+        return True
+    return False
+
+
 def _pure_flag_value(e):
     """cheap and free of side effects: may be evaluated once more"""
     for n in ast.walk(e):
@@ -1054,6 +1242,10 @@ def _literal_of(value):
         return value
     if isinstance(value, ast.Tuple) and value.elts and _immutable(value, True):
         return value           # tuple of references, e.g. (DEAD_OR_ZOMBIE, UNEXISTING)
+    if isinstance(value, ast.Call) and dotted(value.func) == 're.compile' and value.args and \
+            not value.keywords and isinstance(value.args[0], ast.Constant) and \
+            all(dotted(a) is not None or isinstance(a, ast.BinOp) for a in value.args[1:]):
+        return value           # a compiled pattern is immutable: the use sites see the literal
     if isinstance(value, ast.Call) and not value.keywords and len(value.args) == 1:
         d = dotted(value.func)
         a = value.args[0]
@@ -1459,11 +1651,41 @@ class Inliner(object):
         return out
 
     def collect(self):
+        bases, defines = {}, {}
         for modname, tree in self.trees.items():
             for cname, c in self._classes(tree):
+                short = cname.split('.')[-1]
+                for b_ in c.bases:
+                    bn = b_.id if isinstance(b_, ast.Name) else (
+                        b_.attr if isinstance(b_, ast.Attribute) else None)
+                    if bn:
+                        bases.setdefault(short, set()).add(bn)
                 for b in c.body:
                     if isinstance(b, (ast.FunctionDef, ast.AsyncFunctionDef)):
                         self.method_names[b.name] = self.method_names.get(b.name, 0) + 1
+                        defines.setdefault(b.name, []).append(short)
+        subs = {}
+        for c_, bs in bases.items():
+            for b_ in bs:
+                subs.setdefault(b_, set()).add(c_)
+
+        def closure(start, rel):
+            seen, todo = set(), [start]
+            while todo:
+                x = todo.pop()
+                for y in rel.get(x, ()):
+                    if y not in seen:
+                        seen.add(y)
+                        todo.append(y)
+            return seen
+        # a method name is ambiguous for class A only when a class RELATED to A (ancestor,
+        # descendant, or a second class of the same name) defines it as well
+        self.ambiguous = set()
+        for name, owners in defines.items():
+            for a in owners:
+                rel = closure(a, bases) | closure(a, subs)
+                if owners.count(a) > 1 or any(o in rel for o in owners if o != a):
+                    self.ambiguous.add((a, name))
         for modname, tree in self.trees.items():
             for s in tree.body:
                 if isinstance(s, (ast.FunctionDef, ast.AsyncFunctionDef)):
@@ -1478,8 +1700,8 @@ class Inliner(object):
             return
         if h.name.startswith('__') and h.name.endswith('__'):
             return
-        if h.clsname and self.method_names.get(h.name, 0) > 1:
-            self.rejected[h.key] = 'method name defined in several classes'
+        if h.clsname and (h.clsname.split('.')[-1], h.name) in self.ambiguous:
+            self.rejected[h.key] = 'method name defined in several related classes'
             return
         why = h.eligible()
         if why:
@@ -2357,6 +2579,287 @@ def restore_function_names(trees, ref):
 
 
 # ---------------------------------------------------------------------------
+def _module_bound_names(tree):
+    out = set()
+    for s in tree.body:
+        if isinstance(s, (ast.FunctionDef, ast.AsyncFunctionDef, ast.ClassDef)):
+            out.add(s.name)
+        elif isinstance(s, (ast.Import, ast.ImportFrom)):
+            for a in s.names:
+                out.add((a.asname or a.name).split('.')[0])
+        elif isinstance(s, ast.Assign):
+            for t in s.targets:
+                if isinstance(t, ast.Name):
+                    out.add(t.id)
+    return out
+
+
+def _bring_imports(dst_tree, src_modname, src_tree):
+    """Make the names a moved definition may use resolvable where it now lives:
+    the source module's imports, and its own top-level definitions."""
+    bound = _module_bound_names(dst_tree)
+    add = []
+    for s in src_tree.body:
+        if isinstance(s, (ast.Import, ast.ImportFrom)):
+            names = [a for a in s.names if (a.asname or a.name).split('.')[0] not in bound
+                     and a.name != '*']
+            if names:
+                c = copy.deepcopy(s)
+                c.names = [copy.deepcopy(a) for a in names]
+                add.append(c)
+                bound |= {(a.asname or a.name).split('.')[0] for a in names}
+    own = [n for n in sorted(_module_bound_names(src_tree) - bound)
+           if any(isinstance(x, (ast.FunctionDef, ast.AsyncFunctionDef, ast.ClassDef, ast.Assign))
+                  and n in _module_bound_names(ast.Module(body=[x], type_ignores=[]))
+                  for x in src_tree.body)]
+    if own:
+        add.append(ast.ImportFrom(module=src_modname, names=[ast.alias(name=n, asname=None)
+                                                              for n in own], level=0))
+    if not add:
+        return
+    pos = 0
+    for i, s in enumerate(dst_tree.body):
+        if isinstance(s, (ast.Import, ast.ImportFrom)):
+            pos = i + 1
+    for c in add:
+        ast.copy_location(c, dst_tree.body[pos - 1] if pos else dst_tree.body[0])
+        ast.fix_missing_locations(c)
+    dst_tree.body[pos:pos] = add
+
+
+def restore_moved_definitions(trees, ref):
+    """A method of the reference table that its class no longer defines but now
+    inherits from a NEW base class of the package (a mixin extracted from it), or a
+    module-level function that its module now imports from a NEW module, was moved:
+    put the definition back where the reference has it (the new class / module
+    stays, emptied of what was moved)."""
+    ref_funcs = set(ref.get('functions', []))
+    if not ref_funcs:
+        return []
+    ref_classes = {k.split('.')[0] for k in ref_funcs if '.' in k.split(':', 1)[1]}
+    ref_modules = {k.split(':')[0] for k in ref_funcs}
+    classes = {}
+    for modname, tree in trees.items():
+        for s in tree.body:
+            if isinstance(s, ast.ClassDef):
+                classes.setdefault(s.name, []).append((modname, tree, s))
+    applied = []
+
+    def new_bases(cnode, depth=0):
+        out = []
+        for b in cnode.bases:
+            name = b.id if isinstance(b, ast.Name) else (b.attr if isinstance(b, ast.Attribute)
+                                                         else None)
+            cands = classes.get(name, [])
+            if len(cands) != 1:
+                continue
+            bmod, btree, bnode = cands[0]
+            if '%s:%s' % (bmod, name) in ref_classes:
+                continue
+            out.append((bmod, btree, bnode))
+            if depth < 3:
+                out.extend(new_bases(bnode, depth + 1))
+        return out
+    for modname, tree in list(trees.items()):
+        for cnode in [s for s in tree.body if isinstance(s, ast.ClassDef)]:
+            prefix = '%s:%s.' % (modname, cnode.name)
+            have = {b.name for b in cnode.body
+                    if isinstance(b, (ast.FunctionDef, ast.AsyncFunctionDef))}
+            missing = [k[len(prefix):] for k in ref_funcs if k.startswith(prefix) and
+                       '.' not in k[len(prefix):] and k[len(prefix):] not in have]
+            if not missing:
+                continue
+            bases = new_bases(cnode)
+            for m in sorted(missing):
+                for bmod, btree, bnode in bases:
+                    defs = [b for b in bnode.body
+                            if isinstance(b, (ast.FunctionDef, ast.AsyncFunctionDef)) and b.name == m]
+                    if not defs:
+                        continue
+                    for d in defs:
+                        bnode.body.remove(d)
+                        cnode.body.append(d)
+                    if not bnode.body:
+                        bnode.body.append(ast.copy_location(ast.Pass(), bnode))
+                    if bmod != modname:
+                        _bring_imports(tree, bmod, btree)
+                    applied.append('%s%s <- %s:%s' % (prefix, m, bmod, bnode.name))
+                    break
+        # module-level functions imported from a new module
+        have = {b.name for b in tree.body if isinstance(b, (ast.FunctionDef, ast.AsyncFunctionDef))}
+        prefix = modname + ':'
+        missing = [k[len(prefix):] for k in ref_funcs if k.startswith(prefix) and
+                   '.' not in k[len(prefix):] and k[len(prefix):] not in have]
+        for m in sorted(missing):
+            for s in list(tree.body):
+                if not (isinstance(s, ast.ImportFrom) and s.module and s.level == 0):
+                    continue
+                al = [a for a in s.names if a.name == m and (a.asname or a.name) == m]
+                if not al or s.module in ref_modules or s.module not in trees:
+                    continue
+                src = trees[s.module]
+                defs = [b for b in src.body
+                        if isinstance(b, (ast.FunctionDef, ast.AsyncFunctionDef)) and b.name == m]
+                if len(defs) != 1:
+                    continue
+                s.names = [a for a in s.names if a is not al[0]]
+                idx = tree.body.index(s)
+                if not s.names:
+                    tree.body.remove(s)
+                src.body.remove(defs[0])
+                if not src.body:
+                    src.body.append(ast.Pass())
+                _bring_imports(tree, s.module, src)
+                tree.body.append(defs[0])
+                applied.append('%s%s <- %s' % (prefix, m, s.module))
+                break
+    for tree in trees.values():
+        ast.fix_missing_locations(tree)
+    return applied
+
+
+def _is_eager_native_adapter(fnode):
+    """def D(func): a gen.coroutine generator that drives func(*a, **kw).__await__() with
+    `yield from` and returns its result - calling D(async_fn)(..) behaves like calling a
+    gen.coroutine function with the same body (`await` for `yield`)."""
+    if not isinstance(fnode, ast.FunctionDef) or len(fnode.args.args) != 1:
+        return False
+    p = fnode.args.args[0].arg
+    inner = [b for b in fnode.body if isinstance(b, ast.FunctionDef)]
+    if len(inner) != 1:
+        return False
+    w = inner[0]
+    if not any((dotted(d) or '').endswith('coroutine') for d in w.decorator_list):
+        return False
+    drives = False
+    for n in ast.walk(w):
+        if isinstance(n, ast.YieldFrom) and isinstance(n.value, ast.Call) and \
+                isinstance(n.value.func, ast.Attribute) and n.value.func.attr == '__await__' and \
+                isinstance(n.value.func.value, ast.Call) and \
+                isinstance(n.value.func.value.func, ast.Name) and n.value.func.value.func.id == p:
+            drives = True
+        elif isinstance(n, (ast.Yield, ast.Await)):
+            return False
+    rets = [b for b in fnode.body if isinstance(b, ast.Return)]
+    return drives and len(rets) == 1 and isinstance(rets[0].value, ast.Name) and \
+        rets[0].value.id == w.name
+
+
+class _AwaitToYield(ast.NodeTransformer):
+    def visit_Await(self, node):
+        self.generic_visit(node)
+        return _loc(ast.Yield(value=node.value), node)
+
+    def visit_FunctionDef(self, node):
+        return node
+
+    visit_AsyncFunctionDef = visit_Lambda = visit_FunctionDef
+
+
+def restore_generator_coroutines(trees, ref):
+    """`@adapter async def f` with `await`, where adapter is a NEW eager native-coroutine
+    adapter (see _is_eager_native_adapter), is the gen.coroutine function with `yield`."""
+    ref_funcs = set(ref.get('functions', []))
+    applied = []
+    for modname, tree in trees.items():
+        adapters = {s.name for s in tree.body
+                    if isinstance(s, ast.FunctionDef) and '%s:%s' % (modname, s.name) not in ref_funcs
+                    and _is_eager_native_adapter(s)}
+        if not adapters:
+            continue
+        scopes = [(None, tree.body)] + [(s.name, s.body) for s in tree.body
+                                        if isinstance(s, ast.ClassDef)]
+        for clsname, body in scopes:
+            for i, b in enumerate(body):
+                if not isinstance(b, ast.AsyncFunctionDef):
+                    continue
+                idx = [j for j, d in enumerate(b.decorator_list)
+                       if isinstance(d, ast.Name) and d.id in adapters]
+                if not idx or any(isinstance(x, (ast.AsyncFor, ast.AsyncWith))
+                                  for x in ast.walk(b)):
+                    continue
+                f = ast.FunctionDef(name=b.name, args=b.args, body=b.body,
+                                    decorator_list=list(b.decorator_list), returns=b.returns,
+                                    type_comment=getattr(b, 'type_comment', None))
+                if hasattr(b, 'type_params'):
+                    f.type_params = b.type_params
+                f.decorator_list[idx[0]] = _loc(ast.Attribute(
+                    value=ast.Name(id='gen', ctx=ast.Load()), attr='coroutine', ctx=ast.Load()),
+                    b.decorator_list[idx[0]])
+                f.body = [_AwaitToYield().visit(st) for st in f.body]
+                ast.copy_location(f, b)
+                body[i] = f
+                applied.append('%s:%s%s' % (modname, (clsname + '.') if clsname else '', b.name))
+        ast.fix_missing_locations(tree)
+    return applied
+
+
+def propagate_attribute_aliases(trees):
+    """A NEW local (not in the frozen local-names table of its function) that is assigned
+    once, at the top level of a function that never suspends (no yield/await), from a plain
+    `self.attr`, is an alias introduced for readability: its uses read `self.attr` again -
+    provided nothing in the function stores `.attr` and no method of the class that stores
+    `self.attr` is called from it."""
+    if os.environ.get('VERIF_NO_ALIAS_PROPAGATION'):
+        return []
+    table_path = os.path.join(os.path.dirname(os.path.abspath(__file__)), 'local_names.json')
+    try:
+        with open(table_path) as f:
+            table = json.load(f)
+    except Exception:
+        return []
+    applied = []
+    for modname, tree in trees.items():
+        for cnode in [s for s in tree.body if isinstance(s, ast.ClassDef)]:
+            storers = {}
+            for m in cnode.body:
+                if isinstance(m, (ast.FunctionDef, ast.AsyncFunctionDef)):
+                    for n in ast.walk(m):
+                        if isinstance(n, ast.Attribute) and isinstance(n.ctx, (ast.Store, ast.Del)):
+                            storers.setdefault(n.attr, set()).add(m.name)
+            for fnode in cnode.body:
+                if not isinstance(fnode, ast.FunctionDef):
+                    continue
+                own = list(_own_nodes(fnode))
+                if any(isinstance(n, (ast.Yield, ast.YieldFrom, ast.Await)) for n in ast.walk(fnode)):
+                    continue
+                key = '%s:%s.%s' % (modname, cnode.name, fnode.name)
+                known = set((table.get(key) or {}).get('order', []))
+                params = _bound_names(fnode) if False else {a.arg for a in (
+                    fnode.args.posonlyargs + fnode.args.args + fnode.args.kwonlyargs)}
+                stores = {}
+                for n in ast.walk(fnode):
+                    if isinstance(n, ast.Name) and isinstance(n.ctx, (ast.Store, ast.Del)):
+                        stores[n.id] = stores.get(n.id, 0) + 1
+                    elif isinstance(n, (ast.Global, ast.Nonlocal)):
+                        for x in n.names:
+                            stores[x] = stores.get(x, 0) + 2
+                called = {n.func.attr for n in ast.walk(fnode)
+                          if isinstance(n, ast.Call) and isinstance(n.func, ast.Attribute) and
+                          isinstance(n.func.value, ast.Name) and n.func.value.id == 'self'}
+                for st in list(fnode.body):
+                    if not (isinstance(st, ast.Assign) and len(st.targets) == 1 and
+                            isinstance(st.targets[0], ast.Name)):
+                        continue
+                    x, v = st.targets[0].id, st.value
+                    if not (isinstance(v, ast.Attribute) and isinstance(v.value, ast.Name) and
+                            v.value.id == 'self'):
+                        continue
+                    if x in known or x in params or stores.get(x) != 1 or 'self' in stores:
+                        continue
+                    attr = v.attr
+                    if any(isinstance(n, ast.Attribute) and n.attr == attr and
+                           isinstance(n.ctx, (ast.Store, ast.Del)) for n in ast.walk(fnode)):
+                        continue
+                    if (storers.get(attr, set()) - {'__init__'}) & called:
+                        continue
+                    fnode.body.remove(st)
+                    _NameSub({x: v}).visit(fnode)
+                    applied.append('%s: %s = self.%s' % (key, x, attr))
+        ast.fix_missing_locations(tree)
+    return applied
+
+
 class StageFailure(Exception):
     def __init__(self, stage, err):
         Exception.__init__(self, '%s: %s: %s' % (stage, type(err).__name__, err))
@@ -2411,6 +2914,12 @@ def normalise_trees(trees, reference=None, inline=True, disabled=()):
             ast.fix_missing_locations(tree)
 
     def rename_stage():
+        moved = restore_moved_definitions(trees, ref)
+        if moved:
+            report['definitions_moved_back'] = moved
+        native = restore_generator_coroutines(trees, ref)
+        if native:
+            report['native_coroutines_as_generators'] = native
         report['functions_renamed_back'] = restore_function_names(trees, ref)
 
     def inline_stage():
@@ -2428,5 +2937,13 @@ def normalise_trees(trees, reference=None, inline=True, disabled=()):
         _guarded(trees, report, 'renamed functions', rename_stage, disabled)
     if ref is not None and inline:
         _guarded(trees, report, 'helper inlining', inline_stage, disabled)
+
+    def alias_stage():
+        got = propagate_attribute_aliases(trees)
+        if got:
+            report['attribute_aliases_propagated'] = got
+            forms_stage()
+    if ref is not None:
+        _guarded(trees, report, 'attribute aliases', alias_stage, disabled)
     report['steps'] = sn.stats
     return report
